@@ -107,7 +107,7 @@ func c09Check(o *Oracle, c openCase) (ok bool, kind, detail, resp string) {
 func init() {
 	stages["c09-search"] = func(ctx *Ctx, cnt func(q, t int) int, replay string) Result {
 		col := NewCollector("C09", "search", "open polylines (2-6 vertices, horizontal segments, ends on grid points shared with clip vertices/edges, retraced) × closed subject and clip sets × {Intersection, Union, Difference} × 4 fill rules on 64-bit and D engines; every piece of every subject segment between crossings with closed edges is sampled at 3 points: off the 2-band of the closed edges it must be covered (within 1 unit) by the open solution iff the keep predicate of the exact winding numbers holds (Lean oracle); the closed solution must equal the run without open paths; non-trivial = ≥ 2 judged sample points and a non-empty open solution")
-		parallelFor(ctx, cnt(4000, 300000), true, col, func(o *Oracle, i int) {
+		parallelFor(ctx, cnt(20000, 300000), true, col, func(o *Oracle, i int) {
 			r := NewRng(ctx.Seed, "c09", i)
 			g := GenCfg{Grid: r.Range(3, 8), Unit: 10}
 			c := openCase{CT: r.Range(1, 3), FR: r.Intn(4), D: r.Chance(0.15)}
